@@ -1217,19 +1217,24 @@ QXmppTask<IqResult> OutgoingIqManager::start(const QString &id, const QString &t
 void OutgoingIqManager::finish(const QString &id, IqResult &&result)
 {
     if (auto itr = m_requests.find(id); itr != m_requests.end()) {
-        itr->second.interface.finish(std::move(result));
+        // take the request out of the table before completing it: the continuation may re-enter
+        // (send further requests, end the session)
+        auto promise = std::move(itr->second.interface);
         m_requests.erase(itr);
+        promise.finish(std::move(result));
     }
 }
 
 void OutgoingIqManager::cancelAll()
 {
-    for (auto &[id, state] : m_requests) {
-        state.interface.finish(QXmppError {
+    // empty the table before completing the requests: a continuation may re-enter
+    const auto requests = std::exchange(m_requests, {});
+    for (auto &[id, state] : requests) {
+        auto promise = state.interface;
+        promise.finish(QXmppError {
             u"IQ has been cancelled."_s,
             QXmpp::SendError::Disconnected });
     }
-    m_requests.clear();
 }
 
 void OutgoingIqManager::onSessionOpened(const SessionBegin &session)
@@ -1266,7 +1271,6 @@ bool OutgoingIqManager::handleStanza(const QDomElement &stanza)
         return false;
     }
 
-    auto &promise = itr->second.interface;
     const auto &expectedFrom = itr->second.jid;
 
     // Check that the sender of the response matches the recipient of the request.
@@ -1279,6 +1283,11 @@ bool OutgoingIqManager::handleStanza(const QDomElement &stanza)
                     .arg(id, from, expectedFrom));
         return false;
     }
+
+    // take the request out of the table before completing it: the continuation may re-enter
+    // (send further requests, end the session)
+    auto promise = std::move(itr->second.interface);
+    m_requests.erase(itr);
 
     // report IQ errors as QXmppError (this makes it impossible to parse the full error IQ,
     // but that is okay for now)
@@ -1298,7 +1307,6 @@ bool OutgoingIqManager::handleStanza(const QDomElement &stanza)
         promise.finish(stanza);
     }
 
-    m_requests.erase(itr);
     return true;
 }
 
